@@ -814,3 +814,109 @@ func TestVerifC05NetQuorum(t *testing.T) {
 		fmt.Println(string(b))
 	}
 }
+
+// TestVerifC17Net (C17): the expiry sweep is a loop in main() -- it exists in the real binary only.  Three real
+// nodes, SessionExpiration 3 s.  (1) an idle session is expired by the first leader; (2) the leader is killed
+// after the followers have been running for longer than one sweep interval, a new leader is elected, and a
+// session that goes idle then is expired as well: the sweep has to run on whichever node is leader NOW.
+// Bounds are generous (75 s for something that takes one sweep interval of 10 s plus 3 s); exceeding them
+// without any other sign is reported, since "is never expired" has no earlier symptom.
+func TestVerifC17Net(t *testing.T) {
+	log.SetOutput(io.Discard)
+	shard, _ := strconv.Atoi(os.Getenv("VERIF_SHARD"))
+	res := &cnResult{EndStates: map[string]int{}}
+	sigs := map[string]*cnViol{}
+	if shard == 0 {
+		func() {
+			inconclusive := func(why string) {
+				if res.HarnessErr == "" {
+					res.HarnessErr = "time cap reached (inconclusive wait: " + why + ")"
+				}
+			}
+			port := cnFreePorts(31600)
+			if port < 0 {
+				res.HarnessErr = "HARNESS: no free ports"
+				return
+			}
+			c, err := cnStart(t.TempDir()+"/e", port)
+			if c != nil {
+				defer c.shutdown()
+			}
+			if err != nil {
+				inconclusive("network start: " + err.Error())
+				return
+			}
+			started := time.Now()
+			if err := c.l.SetConfig("SessionExpiration = \"3s\"\nPostMessageCooloff = \"0\"\n[IRC]\n"); err != nil {
+				inconclusive("config: " + err.Error())
+				return
+			}
+			res.Sequences++
+			// gone reports how long it takes until every live node answers 404 for the session (0: not within d)
+			gone := func(s cnSession, d time.Duration) time.Duration {
+				t0 := time.Now()
+				for time.Since(t0) < d {
+					all := true
+					for _, n := range c.liveNodes() {
+						// (reading the stream is not activity; for a live session the request streams until the timeout)
+						sc, _, _, e2 := c.do(n, "GET", "/robustirc/v1/"+s.Id+"/messages?lastseen=0.0", map[string]string{"X-Session-Auth": s.Auth}, "", 1500*time.Millisecond)
+						if e2 != nil || sc != 404 {
+							all = false // still streaming (timeout) or not yet seen
+						}
+					}
+					if all {
+						return time.Since(t0)
+					}
+					time.Sleep(time.Second)
+				}
+				return 0
+			}
+			s1, err := c.createSession(60 * time.Second)
+			if err != nil {
+				inconclusive(err.Error())
+				return
+			}
+			d1 := gone(s1, 75*time.Second)
+			res.Ops++
+			if d1 == 0 {
+				res.report(sigs, "an idle session is not expired by the first leader within 75 s (expiration 3 s)", "session created, never used", []string{"c17net"})
+				return
+			}
+			res.EndStates[fmt.Sprintf("first leader expires an idle session")]++
+			// let every node pass at least one sweep interval in its current role
+			if w := 14*time.Second - time.Since(started); w > 0 {
+				time.Sleep(w)
+			}
+			ld := c.leader()
+			if ld == nil {
+				inconclusive("no leader")
+				return
+			}
+			c.kill(ld)
+			res.Kills++
+			if err := c.waitHealthy(1, 90*time.Second); err != nil {
+				inconclusive(err.Error())
+				return
+			}
+			res.Elections++
+			s2, err := c.createSession(60 * time.Second)
+			if err != nil {
+				inconclusive(err.Error())
+				return
+			}
+			d2 := gone(s2, 75*time.Second)
+			res.Ops++
+			if d2 == 0 {
+				res.report(sigs, "after a leader change idle sessions are not expired any more", fmt.Sprintf("the first leader expired an idle session after %v; the leader was killed, a new one elected; a session created then and never used still exists on the live nodes 75 s later (expiration 3 s, sweep interval 10 s)", d1.Round(time.Second)), []string{"c17net"})
+				return
+			}
+			res.EndStates["the new leader expires an idle session"]++
+		}()
+	}
+	b, _ := json.Marshal(res)
+	if o := os.Getenv("VERIF_OUT"); o != "" {
+		os.WriteFile(o, b, 0644)
+	} else {
+		fmt.Println(string(b))
+	}
+}
